@@ -6,6 +6,7 @@ import (
 	"math/big"
 	"sort"
 	"strings"
+	"time"
 
 	"golang.org/x/tools/go/ssa"
 
@@ -21,6 +22,7 @@ type Result struct {
 
 // checker is the reporting context of one Check* call.
 type checker struct {
+	start  time.Time
 	run    *report.Run
 	p      *load.Program
 	res    *Result
@@ -30,7 +32,7 @@ type checker struct {
 }
 
 func newChecker(run *report.Run, p *load.Program, prefix string) *checker {
-	c := &checker{run: run, p: p, res: &Result{}}
+	c := &checker{start: time.Now(), run: run, p: p, res: &Result{}}
 	c.value = run.Rule(prefix+"-value", "value preservation: the weighted sum of the outputs equals the weighted sum of the inputs as affine forms over the input bits (exactly, or coefficient-wise modulo p = 2^255-19 where stated), for every input", 0)
 	c.rng = run.Rule(prefix+"-range", "every arithmetic result of the function is shown to fit its machine word by the interval of its affine form (nothing wraps silently), every branch is decided, and the outputs lie in their documented ranges", 0)
 	c.layout = run.Rule(prefix+"-layout", "outputs are bit layouts inside their nominal widths: every input bit is routed to exactly one output position of the right weight, bits that must be ignored reach no output", 0)
@@ -86,6 +88,12 @@ func (c *checker) sample(m map[string]any) {
 
 // anchor resolves a function; on failure every planned clause fails.
 func (c *checker) anchor(rel, name string, rules ...*report.Rule) *ssa.Function {
+	if el := time.Since(c.start); el > DriverBudget {
+		for _, ru := range rules {
+			c.fail(ru, "-", rel+"."+name, fmt.Sprintf("undecided: budget exceeded: the driver has used %s of wall-clock time (limit %s) before reaching this function", el.Round(time.Second), DriverBudget))
+		}
+		return nil
+	}
 	fn := c.p.Func(rel, name)
 	if fn == nil || len(fn.Blocks) == 0 {
 		for _, ru := range rules {
